@@ -3207,8 +3207,6 @@ func (m *Machine) SetSchema(newSchema Schema, names S) error {
 		m.schemaMx.Unlock()
 		return err
 	}
-	// TODO is this safe?
-	m.subs.SetClock(m.Clock(nil))
 	m.schemaMx.Unlock()
 
 	// notify the resolver and tracers
